@@ -494,4 +494,289 @@ example : readerRecords ',' [['"', 'a', '\n'], ['b', '"', ',', 'c', '\n']]
     = .ok [[['a', '\n', 'b'], ['c']]] := by decide
 end NonVacuityReader
 
+/-! ## load_native_csv (csv.DictReader) on saved files
+
+`nativeCsv no file` is `list(load_native_csv(path, …))` (model in `Model/CsvReader.lean`, with
+fix C14-f).  A `DictReader` row `nativeRec names row` is the named part `zipPad names row`
+(`C14_native_record`) plus the surplus cells under the key `None`; "the same records as
+`load_csv`" is equality of the named parts (`NRec.row`). -/
+
+/-- a `DictReader` row over unique names: the named part is `load_csv`'s record, the surplus
+cells (which `load_csv` drops) are kept under the key `None` -/
+theorem C14_native_record (names : List Str) (hn : names.Nodup) (row : List Str) :
+    (nativeRec names row).row = zipPad (names.map Key.name) row
+      ∧ (nativeRec names row).rest
+          = if names.length < row.length then some (row.drop names.length) else none := by
+  rw [nativeRec_nodup names hn]
+  exact ⟨rfl, rfl⟩
+
+/-- **C14 (load_native_csv, header given and in the file).**  `column_names = hdr` and
+`contains_header` true (the default): the header line is checked and skipped, blank lines are
+skipped, one row per non-empty data row — the records `load_csv` yields in the same mode. -/
+theorem C14_native_header_given_both (d : Char) (hd : GoodDelim14 d) (eol : Str) (he : Eol eol)
+    (bom : Bool) (hdr : List Str) (hne : hdr ≠ []) (hnd : hdr.Nodup) (rows : List (List Str))
+    (hc : CellsOK (hdr :: rows)) (re : Bool)
+    (o : Opts) (hp : Plain o d) (hb : o.binary = false) (hru : o.returnUnknown = false)
+    (hm : Given o hdr hdr) :
+    nativeCsv { columnNames := .list hdr, delim := d, containsHeader := true, raiseExc := re }
+        (fileOf bom d eol (some hdr) rows)
+      = .ok ((dataRows rows).map (nativeRec hdr))
+    ∧ records (loadCsv o (fileOf bom d eol (some hdr) rows))
+      = .ok (((dataRows rows).map (nativeRec hdr)).map NRec.row) := by
+  constructor
+  · unfold fileOf
+    rw [saveCsv_header d eol hdr rows hne]
+    obtain ⟨h1, h2⟩ := csvr_native_file
+      { columnNames := .list hdr, delim := d, containsHeader := true, raiseExc := re } d hd.1 hd.2
+      rfl eol he bom (hdr :: rows) hc.1 hc.2
+    rw [h1]
+    exact csvr_native_given_header _ hdr hne hnd rfl rfl _ rows h2
+  · rw [C14_header_given_both d hd eol he bom hdr hne hnd rows hc o hp hb hru hm, List.map_map]
+    congr 1
+    apply List.map_congr_left
+    intro r _
+    exact ((C14_native_record hdr hnd r).1).symm
+
+/-- **C14 (load_native_csv, names given, no header line).**  `column_names = names`,
+`contains_header` false: every non-empty row is a record keyed by the names (no condition on the
+first row — nothing is looked for); under the hypotheses of `C14_header_given_only` these are
+`load_csv`'s records. -/
+theorem C14_native_names_only (d : Char) (hd : GoodDelim14 d) (eol : Str) (he : Eol eol)
+    (bom : Bool) (names : List Str) (hsn : names.Nodup) (rows : List (List Str))
+    (hc : CellsOK rows) (re : Bool) :
+    nativeCsv { columnNames := .list names, delim := d, containsHeader := false, raiseExc := re }
+        (fileOf bom d eol none rows)
+      = .ok ((dataRows rows).map (nativeRec names))
+    ∧ ∀ (o : Opts) (first : List Str) (rest : List (List Str)) (mand : MandArg),
+        names ≠ [] → dataRows rows = first :: rest → (∃ m ∈ names, m ∉ first) → Plain o d →
+        o.binary = false → (mand = .none ∨ mand = .bool false) → NamesOnly o names mand →
+        records (loadCsv o (fileOf bom d eol none rows))
+          = .ok (((dataRows rows).map (nativeRec names)).map NRec.row) := by
+  constructor
+  · unfold fileOf
+    rw [saveCsv_none]
+    obtain ⟨h1, h2⟩ := csvr_native_file
+      { columnNames := .list names, delim := d, containsHeader := false, raiseExc := re } d hd.1 hd.2
+      rfl eol he bom rows hc.1 hc.2
+    rw [h1]
+    exact csvr_native_names_only _ names hsn rfl rfl _ rows h2
+  · intro o first rest mand hs hrows hmiss hp hb hmand hm
+    rw [C14_header_given_only d hd eol he bom names hs hsn rows hc first rest hrows hmiss o hp hb
+      mand hmand hm, hrows, List.map_map]
+    congr 1
+    apply List.map_congr_left
+    intro r _
+    exact ((C14_native_record names hsn r).1).symm
+
+/-- **C14 (load_native_csv, header taken from the file).**  `column_names` absent (with fix
+C14-f: whatever `contains_header`, also the default `True`): the first line gives the names; the
+records are those of `load_csv` with the header taken from the file. -/
+theorem C14_native_header_from_file (d : Char) (hd : GoodDelim14 d) (eol : Str) (he : Eol eol)
+    (bom : Bool) (hdr : List Str) (hne : hdr ≠ []) (hnd : hdr.Nodup) (rows : List (List Str))
+    (hc : CellsOK (hdr :: rows)) (ch re : Bool)
+    (o : Opts) (hp : Plain o d) (hb : o.binary = false) (hcn : o.columnNames = .none)
+    (hm : FromFile o hdr) :
+    nativeCsv { columnNames := .none, delim := d, containsHeader := ch, raiseExc := re }
+        (fileOf bom d eol (some hdr) rows)
+      = .ok ((dataRows rows).map (nativeRec hdr))
+    ∧ records (loadCsv o (fileOf bom d eol (some hdr) rows))
+      = .ok (((dataRows rows).map (nativeRec hdr)).map NRec.row) := by
+  constructor
+  · unfold fileOf
+    rw [saveCsv_header d eol hdr rows hne]
+    obtain ⟨h1, h2⟩ := csvr_native_file
+      { columnNames := .none, delim := d, containsHeader := ch, raiseExc := re } d hd.1 hd.2
+      rfl eol he bom (hdr :: rows) hc.1 hc.2
+    rw [h1]
+    exact csvr_native_from_file _ hdr rfl _ rows h2
+  · rw [C14_header_from_file d hd eol he bom hdr hne hnd rows hc o hp hb hcn hm, List.map_map]
+    congr 1
+    apply List.map_congr_left
+    intro r _
+    exact ((C14_native_record hdr hnd r).1).symm
+
+/-- **C14 (load_native_csv refuses a missing header).**  `column_names = names`,
+`contains_header` true, but the first non-blank row is not exactly the names: `ReferenceError`,
+or nothing at all with `raise_exception=False` — as `load_csv` (`C14_missing_mandatory_refused`). -/
+theorem C14_native_missing_refused (d : Char) (hd : GoodDelim14 d) (eol : Str) (he : Eol eol)
+    (bom : Bool) (names : List Str) (hsn : names.Nodup) (rows : List (List Str))
+    (hc : CellsOK rows) (first : List Str) (rest : List (List Str))
+    (hrows : dataRows rows = first :: rest) (hdiff : first ≠ names) (re : Bool) :
+    nativeCsv { columnNames := .list names, delim := d, containsHeader := true, raiseExc := re }
+        (fileOf bom d eol none rows)
+      = if re then .error (.py .ReferenceError) else .ok [] := by
+  unfold fileOf
+  rw [saveCsv_none]
+  obtain ⟨h1, h2⟩ := csvr_native_file
+    { columnNames := .list names, delim := d, containsHeader := true, raiseExc := re } d hd.1 hd.2
+    rfl eol he bom rows hc.1 hc.2
+  rw [h1]
+  exact csvr_native_refused _ names hsn rfl rfl _ rows first rest hrows hdiff h2
+
+/-! ## load_simple_csv -/
+
+/-- **C14 (load_simple_csv = load_csv without quotes).**  On **every** file that contains no
+quote character and for **every** option record (text mode; `load_simple_csv` has no
+`return_unknown_fields`), `load_simple_csv` — plain `split` — returns what `load_csv` returns:
+records, original lines or the exception. -/
+theorem C14_simple_no_quote (o : Opts) (hb : o.binary = false) (hru : o.returnUnknown = false)
+    (file : Str) (hq : '"' ∉ file) : loadSimple o file = loadCsv o file :=
+  csvr_loadSimple_no_quote o hb hru file hq
+
+/-- **C14 (load_simple_csv on saved tables).**  For a table saved by `save_csv` whose cells and
+names contain neither the delimiter nor a quote (and no row is the single empty cell, which
+`csv.writer` writes as `""`): the same result as `load_csv` under every header mode and every
+strip / skip option — so all the C14 theorems apply to `load_simple_csv`. -/
+theorem C14_simple_saved_table (d : Char) (hd : GoodDelim14 d) (eol : Str) (he : Eol eol)
+    (bom : Bool) (header : Option (List Str)) (rows : List (List Str))
+    (hr : ∀ r ∈ allRows header rows, (∀ f ∈ r, PlainCell d f) ∧ r ≠ [[]])
+    (o : Opts) (hb : o.binary = false) (hru : o.returnUnknown = false) :
+    loadSimple o (fileOf bom d eol header rows) = loadCsv o (fileOf bom d eol header rows) := by
+  apply C14_simple_no_quote o hb hru
+  rw [fileOf_eq]
+  exact csvr_written_no_quote d hd.1.1 eol he _ hr bom
+
+/-- counter-example outside that domain: a quoted cell keeps its quotes under `load_simple_csv` -/
+theorem C14_simple_quote_cex :
+    records (loadSimple { } ['"', 'a', '"', '\n']) = .ok [[(.pos 0, some ['"', 'a', '"'])]]
+      ∧ records (loadCsv { } ['"', 'a', '"', '\n']) = .ok [[(.pos 0, some ['a'])]] :=
+  ⟨by decide, by decide⟩
+
+/-! ## strip_field / strip_line / skip_empty_lines=False in closed form -/
+
+/-- **C14 (strip_field).**  `strip_field=True` (header taken from the file, announced in one of
+the documented ways for the *stripped* names): names and cells are the written ones with their
+surrounding blanks removed (`pyStrip` = `str.strip()`; see `C14_strip_padded`). -/
+theorem C14_strip_field (d : Char) (hd : GoodDelim14 d) (eol : Str) (he : Eol eol) (bom : Bool)
+    (hdr : List Str) (hne : hdr ≠ []) (hnd : (hdr.map pyStrip).Nodup) (rows : List (List Str))
+    (hc : CellsOK (hdr :: rows))
+    (o : Opts) (hp : StripField o d) (hcn : o.columnNames = .none)
+    (hm : FromFile o (hdr.map pyStrip)) :
+    records (loadCsv o (fileOf bom d eol (some hdr) rows))
+      = .ok ((dataRows rows).map
+          (fun r => zipPad ((hdr.map pyStrip).map Key.name) (r.map pyStrip))) := by
+  obtain ⟨n, hn, hcn', hdec⟩ := fromFile_norm o (hdr.map pyStrip) hcn hm
+  unfold fileOf
+  rw [saveCsv_header d eol hdr rows hne,
+    csvr_loadCsv_strip_field o d hd.1 hd.2 hp eol he bom (hdr :: rows) hc.1 hc.2 n hn hdr
+      (dataRows rows) (dataRows_cons_ne hdr rows hne),
+    outcome_header o n _ _ hdec hnd hcn', List.map_map]
+  rfl
+
+/-- **C14 (strip_field, positional).**  The same without a header: positions of the first row. -/
+theorem C14_strip_field_positional (d : Char) (hd : GoodDelim14 d) (eol : Str) (he : Eol eol)
+    (bom : Bool) (rows : List (List Str)) (hc : CellsOK rows) (first : List Str)
+    (rest : List (List Str)) (hrows : dataRows rows = first :: rest)
+    (o : Opts) (hp : StripField o d) (hm : NoHeaderOpts o) :
+    records (loadCsv o (fileOf bom d eol none rows))
+      = .ok ((first :: rest).map (fun r => zipPad (positions first.length) (r.map pyStrip))) := by
+  obtain ⟨n, hn, hcn', hdec⟩ := noHeader_norm o hm (first.map pyStrip)
+  unfold fileOf
+  rw [saveCsv_none,
+    csvr_loadCsv_strip_field o d hd.1 hd.2 hp eol he bom rows hc.1 hc.2 n hn first rest hrows]
+  have hdn : dataNames n (first.map pyStrip) = positions first.length := by
+    simp [dataNames, hcn']
+  rw [outcome_data o n _ _ hdec (by rw [hdn]; exact nodup_positions _), hdn]
+  simp [List.map_map]
+
+/-- what `pyStrip` removes: exactly the blanks around a core that has none at its ends -/
+theorem C14_strip_padded (l c r : Str) (hl : ∀ x ∈ l, isPySpace x = true)
+    (hr : ∀ x ∈ r, isPySpace x = true) (hc : OuterClean isPySpace c) :
+    pyStrip (l ++ c ++ r) = c :=
+  stripWith_padded isPySpace l c r hl hr hc
+
+/-- **C14 (strip_line on clean lines).**  `strip_line=True` strips the *line*, not the cells; on
+a saved table none of whose written lines begins or ends with a blank it changes nothing, under
+every header option. -/
+theorem C14_strip_line_clean (d : Char) (hd : GoodDelim14 d) (eol : Str) (he : Eol eol) (bom : Bool)
+    (header : Option (List Str)) (rows : List (List Str)) (hc : CellsOK (allRows header rows))
+    (hcl : ∀ r ∈ allRows header rows, OuterClean isPySpace (bodyOf d LF r))
+    (o : Opts) (hp : Plain o d) (hb : o.binary = false) :
+    records (loadCsv { o with stripLine := true } (fileOf bom d eol header rows))
+      = records (loadCsv o (fileOf bom d eol header rows)) := by
+  rw [fileOf_eq]
+  exact csvr_strip_line_clean o hb d hd.1 hd.2 hp eol he bom _ hc.1 hc.2 hcl
+
+/-- counter-example: `strip_line` is not `strip_field` — outer blanks of a line written from
+quoted cells survive, and a blank-only first cell before a blank delimiter disappears -/
+theorem C14_strip_line_cex :
+    records (loadCsv { stripLine := true, delim := '\t' } ['\t', 'a', '\n'])
+      = .ok [[(.pos 0, some ['a'])]]
+    ∧ records (loadCsv { delim := '\t' } ['\t', 'a', '\n'])
+      = .ok [[(.pos 0, some []), (.pos 1, some ['a'])]] := ⟨by decide, by decide⟩
+
+/-- **C14 (skip_empty_lines=False).**  Header taken from the file: **every** row after the header
+yields a record, in order; an empty row (a blank line) yields the record of the single empty cell
+— first name ↦ `''`, the other names ↦ `None` (`cellsOfRow [] = ['']`). -/
+theorem C14_keep_empty_lines (d : Char) (hd : GoodDelim14 d) (eol : Str) (he : Eol eol) (bom : Bool)
+    (hdr : List Str) (hne : hdr ≠ []) (hnd : hdr.Nodup) (rows : List (List Str))
+    (hc : CellsOK (hdr :: rows))
+    (o : Opts) (hp : KeepEmpty o d) (hb : o.binary = false) (hcn : o.columnNames = .none)
+    (hm : FromFile o hdr) :
+    records (loadCsv o (fileOf bom d eol (some hdr) rows))
+      = .ok (rows.map (fun r => zipPad (hdr.map Key.name) (cellsOfRow r))) := by
+  obtain ⟨n, hn, hcn', hdec⟩ := fromFile_norm o hdr hcn hm
+  unfold fileOf
+  rw [saveCsv_header d eol hdr rows hne,
+    csvr_loadCsv_keep o hb d hd.1 hd.2 hp eol he bom hdr hne rows hc.1 hc.2 n hn,
+    outcome_header o n _ _ hdec hnd hcn', List.map_map]
+  rfl
+
+/-- **C14 (skip_empty_lines=False, positional).**  No header, the first row not empty: every
+row, blank lines included, keyed by the positions of the first row.  (Blank lines *before* the
+first non-blank line are skipped whatever `skip_empty_lines`: the leading-blank loop of
+`load_csv` does not consult it — model `skipBlank`, stream `csvfile.load/*`.) -/
+theorem C14_keep_empty_lines_positional (d : Char) (hd : GoodDelim14 d) (eol : Str) (he : Eol eol)
+    (bom : Bool) (first : List Str) (hne : first ≠ []) (rest : List (List Str))
+    (hc : CellsOK (first :: rest))
+    (o : Opts) (hp : KeepEmpty o d) (hb : o.binary = false) (hm : NoHeaderOpts o) :
+    records (loadCsv o (fileOf bom d eol none (first :: rest)))
+      = .ok ((first :: rest).map (fun r => zipPad (positions first.length) (cellsOfRow r))) := by
+  obtain ⟨n, hn, hcn', hdec⟩ := noHeader_norm o hm first
+  unfold fileOf
+  rw [saveCsv_none,
+    csvr_loadCsv_keep o hb d hd.1 hd.2 hp eol he bom first hne rest hc.1 hc.2 n hn]
+  have hdn : dataNames n first = positions first.length := by simp [dataNames, hcn']
+  rw [outcome_data o n _ _ hdec (by rw [hdn]; exact nodup_positions _), hdn]
+  have : cellsOfRow first = first := by
+    cases first with
+    | nil => exact absurd rfl hne
+    | cons _ _ => rfl
+  simp [List.map_map, this]
+
+section NonVacuityReaders
+private def hdrP : List Str := [[' ', 'a'], ['b', ' ', ' ']]
+private def rowsP : List (List Str) := [[['1', ' '], [' ', '"', '2']], [], [[' ']], [['4'], [' '], ['6']]]
+
+example : StripField { stripField := true, mandatory := .bool true } ',' := ⟨rfl, rfl, rfl, rfl, rfl⟩
+example : KeepEmpty { skipEmpty := false } ',' := ⟨rfl, rfl, rfl, rfl⟩
+example : (hdrP.map pyStrip).Nodup := by decide
+example : FromFile { stripField := true, mandatory := .bool true } (hdrP.map pyStrip) := .mandatory rfl rfl
+example : records (loadCsv { stripField := true, mandatory := .bool true } (fileOf true ',' CRLF (some hdrP) rowsP))
+    = .ok [[(.name ['a'], some ['1']), (.name ['b'], some ['"', '2'])],
+           [(.name ['a'], some []), (.name ['b'], none)],
+           [(.name ['a'], some ['4']), (.name ['b'], some [])]] := by decide
+example : records (loadCsv { skipEmpty := false, mandatory := .bool true } (fileOf false ',' LF (some hdrAB) rowsX))
+    = .ok [[(.name ['a'], some ['1']), (.name ['b', ','], some ['"', '2'])],
+           [(.name ['a'], some []), (.name ['b', ','], none)],
+           [(.name ['a'], some ['3']), (.name ['b', ','], none)],
+           [(.name ['a'], some ['4']), (.name ['b', ','], some [])]] := by decide
+example : OuterClean isPySpace ['a', ' ', 'b'] := by
+  constructor <;> intro x hx <;> simp at hx <;> subst hx <;> decide
+example : PlainCell ',' ['a', ' ', 'b'] := by unfold PlainCell NoBreak; decide
+-- load_native_csv: default arguments (fix C14-f), surplus cells under the key None, blank line skipped
+example : nativeCsv { } (fileOf true ',' CRLF (some hdrAB) rowsX)
+    = .ok [⟨[(.name ['a'], some ['1']), (.name ['b', ','], some ['"', '2'])], none⟩,
+           ⟨[(.name ['a'], some ['3']), (.name ['b', ','], none)], none⟩,
+           ⟨[(.name ['a'], some ['4']), (.name ['b', ','], some [])], some [['6']]⟩] := by decide
+example : nativeCsv { columnNames := .list hdrAB } (fileOf false ',' LF none rowsX)
+    = .error (.py .ReferenceError) := by decide
+example : nativeCsv { columnNames := .list hdrAB, raiseExc := false } (fileOf false ',' LF none rowsX)
+    = .ok [] := by decide
+example : nativeCsv { } ['a', '\n', '"', 'b', '\n'] = .error .csv := by decide
+example : nativeCsv { columnNames := .list [['a'], ['a']] } [] = .error (.py .SyntaxError) := by decide
+-- load_simple_csv: binary mode cannot work (str argument to bytes.rstrip)
+example : loadSimple { binary := true } ['a', '\n'] = .error .TypeError := by decide
+end NonVacuityReaders
+
 end N0.C14
